@@ -88,28 +88,28 @@ type cwStep struct {
 }
 
 type cwWorld struct {
-	node        *zoneNode
-	rc          *h.Rng
-	rg          cwRegime
-	quai        []*cwAcct
-	qi          []utKey
-	steps       []cwStep
-	etxSeq      uint64
-	owner       *common.Address    // deployed lockup-owner contract (nil until deployed)
-	store       *common.Address    // deployed storage contract
-	wrapper     *common.Address    // deployed contract that forwards its call data to the lockup precompile (holds wrapped Qi)
-	wrapped     []common.Address   // Quai beneficiaries of wrapping transactions made so far
-	emitted     types.Transactions // coinbase ETXs emitted by the zone since the last region block
-	hist        map[string]int
-	spentInPool map[string]bool           // outpoints the generator already used in a submitted Qi transaction
-	plan        *cwPlan                   // a contract deployment onto an address that was funded beforehand
-	hunt        bool                      // time spends of small unlocked outputs to the block that trims them
-	busy        bool                      // more region blocks, and every one of them delivers a burst of lockup coinbases
-	adversarialQi bool                    // some Qi transactions handed to the pool are invalid in ways only block assembly can notice
-	convertQi   bool                      // some Qi spends are Qi -> Quai conversions
-	forceRegion int                       // when it counts down to zero the block being built is of region order
-	qiBoost     int                       // extra Qi spends per round
-	born        map[types.OutPoint]uint64 // creation height of outputs made on this chain
+	node          *zoneNode
+	rc            *h.Rng
+	rg            cwRegime
+	quai          []*cwAcct
+	qi            []utKey
+	steps         []cwStep
+	etxSeq        uint64
+	owner         *common.Address    // deployed lockup-owner contract (nil until deployed)
+	store         *common.Address    // deployed storage contract
+	wrapper       *common.Address    // deployed contract that forwards its call data to the lockup precompile (holds wrapped Qi)
+	wrapped       []common.Address   // Quai beneficiaries of wrapping transactions made so far
+	emitted       types.Transactions // coinbase ETXs emitted by the zone since the last region block
+	hist          map[string]int
+	spentInPool   map[string]bool           // outpoints the generator already used in a submitted Qi transaction
+	plan          *cwPlan                   // a contract deployment onto an address that was funded beforehand
+	hunt          bool                      // time spends of small unlocked outputs to the block that trims them
+	busy          bool                      // more region blocks, and every one of them delivers a burst of lockup coinbases
+	adversarialQi bool                      // some Qi transactions handed to the pool are invalid in ways only block assembly can notice
+	convertQi     bool                      // some Qi spends are Qi -> Quai conversions
+	forceRegion   int                       // when it counts down to zero the block being built is of region order
+	qiBoost       int                       // extra Qi spends per round
+	born          map[types.OutPoint]uint64 // creation height of outputs made on this chain
 }
 
 type cwPlan struct {
